@@ -388,6 +388,64 @@ func ruleRSCopy(p *Prog, r *Reporter) {
 		r.Check(ok, pos, p.FuncName(ctor), "NewVerifier: "+reqField, "initialised as Clone() of "+baseField+" after every option was applied",
 			"constructor does not initialise "+reqField+" as a Clone() of "+baseField+" after the options loop: a fresh authorizer differs from a reset one")
 	}
+	// symmetry: besides the initial values, the constructor does nothing to the request state that Reset
+	// would not do: no call receives the new authorizer's request fields (or the authorizer itself, except
+	// the option appliers, whose writes RS-BASE confines to the base state)
+	nSym := 0
+	for _, c := range callsIn(ctor) {
+		cc := c.Common()
+		args := callArgs(cc)
+		for _, a := range args {
+			d := p.D(a)
+			touches := ""
+			for reqField := range cloned {
+				if strings.HasSuffix(d, "."+reqField) || strings.Contains(d, "."+reqField+".") || strings.Contains(d, "."+reqField+"[") {
+					if al := rootAlloc(a); al != nil && types.Identical(deref(al.Type()), impl) {
+						touches = reqField
+					} else if strings.HasPrefix(d, "new#") || strings.HasPrefix(d, "&new#") {
+						touches = reqField
+					}
+				}
+			}
+			if touches == "" {
+				continue
+			}
+			// a callee that only reads the request state changes nothing
+			mut := false
+			for _, callee := range p.CG().Callees(c) {
+				for ai, a2 := range args {
+					if a2 == a {
+						if _, m := p.own().mutates[callee][ai]; m {
+							mut = true
+						}
+					}
+				}
+				if callee.Blocks == nil || !p.isRepoFunc(callee) {
+					mut = mut || !readOnlyExternal(calleeName(callee))
+				}
+			}
+			if !mut {
+				continue
+			}
+			nSym++
+			callee := "a call"
+			if f := cc.StaticCallee(); f != nil {
+				callee = calleeName(f)
+			}
+			r.Bad(p.instrPos(c), p.FuncName(ctor), "NewVerifier: use of "+touches, "the constructor hands the new authorizer's "+touches+" to "+callee+" after initialising it: a fresh authorizer starts with content that Reset does not restore (fresh and reset authorizers differ)")
+		}
+		if f := cc.StaticCallee(); f != nil {
+			for _, m := range ms {
+				if m == f {
+					nSym++
+					r.Bad(p.instrPos(c), p.FuncName(ctor), "NewVerifier: calls "+f.Name(), "the constructor calls the authorizer method "+f.Name()+" on the new object: request-level content is added that Reset does not restore")
+				}
+			}
+		}
+	}
+	if nSym == 0 {
+		r.OK(p.Pos(ctor.Pos()), p.FuncName(ctor), "NewVerifier: symmetry with Reset", "the constructor only initialises the request state, like Reset")
+	}
 }
 
 // afterOptionLoop: the instruction executes after the full-range loop over the variadic options parameter.
